@@ -13,6 +13,10 @@ A_ALPHABET = "only cases built from the listed alphabets up to the listed bounds
 A_OVERLAY = "harness is compiled into the package under test through go test -overlay from the current /repo working tree"
 
 PROPS = {
+    "C05": dict(
+        variant="plain", files=["zzv_c05_test.go"], test="TestVerif_C05",
+        assumptions=[A_ALPHABET, A_OVERLAY],
+    ),
     "C28": dict(
         variant="plain", files=["zzv_c28_test.go"], test="TestVerif_C28",
         assumptions=[A_ALPHABET, A_OVERLAY],
